@@ -1,10 +1,11 @@
 #!/bin/bash
-# usage: selftest/run_all_seeded.sh [tier]   -- re-runs the property's check against every kept seeded change
+# usage: selftest/run_all_seeded.sh [tier] [id-regex]   -- re-runs the property's check against every kept seeded change
 # (scratch copies of /repo; /repo itself is never touched) and prints one line per change.
-tier="${1:-quick}"
+tier="${1:-quick}"; only="${2:-.}"
 cd "$(dirname "$0")/.."
 for d in seeded/*/; do
   name=$(basename "$d")
+  echo "$name" | grep -qE "$only" || continue
   prop=$(python3 -c "import json;print(json.load(open('$d/meta.json'))['property'])")
   res=$(SKIP_REPO_TESTS=1 selftest/seeded_run.sh "$d" "$prop" "$tier" 2>&1)
   verdict=$(echo "$res" | grep -E "^(CAUGHT|MISSED)" | head -1)
